@@ -48,7 +48,7 @@ def variants():
 
 def events_for(variant):
     n = len(variants()[variant]["cells"])
-    ev = ["W", "A", "C", "B", "M0", "M1", "P", "P2", "Q", "R"] + [f"D{i}" for i in range(n)]
+    ev = ["W", "A", "C", "B", "M0", "M1", "P", "P2", "P3", "Q", "R"] + [f"D{i}" for i in range(n)]
     return ev
 
 
@@ -66,7 +66,7 @@ def cases(tier, seed):
 
 
 def bounds(tier):
-    return {"history_depth": 4 if tier == "quick" else 6, "events": 11, "models": "2 and 3 boxes in a row with outer patches, an interface patch pair, and corner/edge/side projections declared by the second box on entities it shares with the first"}
+    return {"history_depth": 4 if tier == "quick" else 6, "events": 12, "models": "2 and 3 boxes in a row with outer patches, an interface patch pair, and corner/edge/side projections declared by the second box on entities it shares with the first"}
 
 
 # ----------------------------------------------------------------------------
@@ -230,6 +230,9 @@ def do_mod(mesh, ev):
     elif ev == "P2":
         # settings only, the type stays the plain 'patch'
         mesh.modify_patch("outlet", "patch", ["inGroups (a b)"])
+    elif ev == "P3":
+        # a patch declared through the mesh only: plain type, no settings, no sides
+        mesh.modify_patch("baffle", "patch")
     elif ev == "Q":
         mesh.set_default_patch("rest", "wall")
     elif ev == "R":
@@ -381,7 +384,7 @@ def check_history(variant, hist):
 
 
 def _name(ev):
-    return {"W": "write", "A": "assemble", "C": "clear", "B": "backport", "P": "modify_patch", "P2": "modify_patch", "Q": "set_default_patch", "R": "merge_patches"}.get(ev, "move" if ev[0] == "M" else "delete")
+    return {"W": "write", "A": "assemble", "C": "clear", "B": "backport", "P": "modify_patch", "P2": "modify_patch", "P3": "modify_patch", "Q": "set_default_patch", "R": "merge_patches"}.get(ev, "move" if ev[0] == "M" else "delete")
 
 
 def run_case(case):
